@@ -150,3 +150,38 @@ pub fn s_restore<T: Clone>(_s: &mut pest::Stack<T>) {
 pub fn f_format(_args: core::fmt::Arguments<'_>) -> String {
     String::new()
 }
+
+// ---------------------------------------------------------------- T1
+use pest_typed::tracker::SpecialError;
+pub type Slot = (Vec<crate::common::R>, Vec<crate::common::R>, Vec<SpecialError>);
+/// The single attempts slot that replaces the tracker's BTreeMap under T1 (the `by <upper rule>` grouping
+/// key is thereby outside the claim).
+pub static mut T1_SLOT: Slot = (Vec::new(), Vec::new(), Vec::new());
+pub fn t1_get_entry<'i, 's, R: RuleType>(
+    _t: &'s mut Tracker<'i, R>,
+    _pos: impl Input<'i>,
+) -> &'s mut (Vec<R>, Vec<R>, Vec<SpecialError>)
+where
+    'i: 'i,
+{
+    // only ever instantiated with R = common::R (asserted by size)
+    assert!(core::mem::size_of::<R>() == core::mem::size_of::<crate::common::R>());
+    unsafe { &mut *(&raw mut T1_SLOT as *mut (Vec<R>, Vec<R>, Vec<SpecialError>)) }
+}
+pub fn t1_clear<'i, R: RuleType>(_t: &mut Tracker<'i, R>)
+where
+    'i: 'i,
+{
+    unsafe {
+        T1_SLOT.0.clear();
+        T1_SLOT.1.clear();
+        T1_SLOT.2.clear();
+    }
+}
+pub fn t1_reset() {
+    unsafe {
+        T1_SLOT.0.clear();
+        T1_SLOT.1.clear();
+        T1_SLOT.2.clear();
+    }
+}
